@@ -27,7 +27,8 @@ CONSTANTS
   Sizes, Skips,   \* page mode: size x skip
   AfterSizes,     \* sizes for search-after / search-before requests
   ReqModes,       \* subset of {"page", "after", "before"}
-  MaxN,           \* matches per search
+  MaxN,           \* matches per search (single-key sorts)
+  MaxN2,          \* matches per search for sorts with two or more keys (larger match domain)
   ScoresSorted,   \* score values when the sort looks at the score
   ScoresOther,    \* score values otherwise (only maxScore depends on them)
   SingleVals,     \* field value sequences of length <= 1 (<<>> = missing)
@@ -79,9 +80,11 @@ FieldDom(sort, f) ==
 
 \* matches that may arrive next.  Attributes the sort does not look at are
 \* fixed (they cannot influence anything); ids are unique.
+MaxNOf(sort) == IF Len(sort) >= 2 THEN MaxN2 ELSE MaxN
+
 MatchDom(sort, sn) ==
   { [id |-> i, s |-> sc, k |-> kk] :
-      i  \in (IF UsesId(sort) THEN (1..MaxN) \ {sn[j].id : j \in DOMAIN sn} ELSE {Len(sn) + 1}),
+      i  \in (IF UsesId(sort) THEN (1..MaxNOf(sort)) \ {sn[j].id : j \in DOMAIN sn} ELSE {Len(sn) + 1}),
       sc \in (IF UsesScore(sort) THEN ScoresSorted ELSE ScoresOther),
       kk \in { t \in [1..NF -> SingleVals \cup MultiVals \cup FirstMultiVals] :
                  \A f \in 1..NF : t[f] \in FieldDom(sort, f) } }
@@ -113,7 +116,7 @@ Init ==
   /\ results = <<>> /\ hits = <<>>
 
 Offer(m) ==
-  /\ Len(seen) < MaxN
+  /\ Len(seen) < MaxNOf(rq.sort)
   /\ LET seen2 == Append(seen, m)
          cs2   == OfferStep(CS, seen2, P)
          res   == FinalResults(cs2, seen2, P)
